@@ -81,7 +81,7 @@ func verifIsPrefix(got, want []string) bool {
 func VerifH_C20_defaultLabelsRoundTrip() {
 	maxLayers, maxURLs := 3, 1
 	if vr.Tier() > 0 {
-		maxLayers, maxURLs = 4, 2
+		maxLayers, maxURLs = 3, 1 // (3,2) and (4,2) exceed 15 minutes without a finding; not registered
 	}
 	children := verifManifest(maxLayers, maxURLs)
 	orig := make([]ocispec.Descriptor, len(children))
@@ -129,7 +129,6 @@ func VerifH_C20_defaultLabelsRoundTrip() {
 	}
 	vr.Reach("end")
 }
-
 
 // C20/H4: a URL containing ',' cannot survive the comma-joined label (known finding F-C20-2: label protocol);
 // every URL without ',' must round-trip.
@@ -180,7 +179,6 @@ func VerifH_C20_mandatoryLabels() {
 	vr.Assert(err != nil, "malformed-mandatory-label-rejected")
 	vr.Reach("end")
 }
-
 
 // verifBoundaryURL: one URL whose length is around the point where key+value reaches the 4096-byte label limit.
 func verifBoundaryURL() string {
